@@ -29,6 +29,7 @@ theorem next_eq (s : SimpleMovingAverage F) (x v : F) (h : WF s) (hv : s.deque[s
   rw [Array.getElem?_eq_getElem hix] at hv
   have hv := Option.some.inj hv
   unfold next
+  try simp only [gen_helper]
   rs_exec
   all_goals (first | omega | (subst hv; rfl))
 
@@ -42,6 +43,7 @@ theorem next_total (s : SimpleMovingAverage F) (x : F) (h : WF s) :
 
 theorem nextBar_eq (s : SimpleMovingAverage F) (b : Bar F) : s.nextBar b = s.next b.close := by
   unfold nextBar
+  try simp only [gen_helper]
   cases h : s.next b.close <;> simp [h]
 
 end TaRs.Gen.SimpleMovingAverage
